@@ -265,7 +265,7 @@ func present(s *spec, w *opdrv.World, id string, rq *request) proof {
 	case pBasicRight:
 		sec, ok := secretOr()
 		rq.Authorization = basicHeader(id, sec, true)
-		p.rightSecret, p.wrongSecret, p.canonical = ok, !ok, ok
+		p.rightSecret, p.wrongSecret, p.canonical, p.rightViaBasic = ok, !ok, ok, ok
 	case pBasicWrong:
 		rq.Authorization = basicHeader(id, s.wrongSecret(), true)
 		p.wrongSecret = true
@@ -280,7 +280,7 @@ func present(s *spec, w *opdrv.World, id string, rq *request) proof {
 		rq.Authorization = basicHeader(id, sec, false)
 		same := unescapesToItself(id) && unescapesToItself(sec) && !strings.Contains(id, ":")
 		// the registered secret is presented, only not form-encoded first: never a refusal obligation
-		p.rightSecret, p.wrongSecret = ok, !ok
+		p.rightSecret, p.wrongSecret, p.rightViaBasic = ok, !ok, ok
 		p.altEncoding = !same
 		p.canonical = ok && same
 	case pBasicMalformedPct:
@@ -300,7 +300,7 @@ func present(s *spec, w *opdrv.World, id string, rq *request) proof {
 		rq.Authorization = basicHeader(url.QueryEscape(id), url.QueryEscape(sec), true)
 		same := url.QueryEscape(id) == id && url.QueryEscape(sec) == sec
 		if same {
-			p.rightSecret, p.wrongSecret, p.canonical = ok, !ok, ok
+			p.rightSecret, p.wrongSecret, p.canonical, p.rightViaBasic = ok, !ok, ok, ok
 		} else if url.QueryEscape(id) != id {
 			p.claim = claimUnknown // after one decoding the id is not the registered one
 		} else {
@@ -320,7 +320,7 @@ func present(s *spec, w *opdrv.World, id string, rq *request) proof {
 		rq.Authorization = basicHeader(id, sec, true)
 		f.Set("client_id", id)
 		f.Set("client_secret", s.wrongSecret())
-		p.rightSecret, p.wrongSecret, p.viaPost = ok, true, true
+		p.rightSecret, p.wrongSecret, p.viaPost, p.rightViaBasic = ok, true, true, ok
 	case pBasicWrongPostRight:
 		sec, ok := secretOr()
 		rq.Authorization = basicHeader(id, s.wrongSecret(), true)
@@ -352,7 +352,7 @@ func present(s *spec, w *opdrv.World, id string, rq *request) proof {
 		sec, ok := secretOr()
 		rq.Authorization = basicHeader(id, sec, true)
 		f.Set("client_id", otherBID)
-		p.rightSecret, p.wrongSecret = ok, !ok
+		p.rightSecret, p.wrongSecret, p.rightViaBasic = ok, !ok, ok
 	case pOwnAssertOtherID:
 		a, valid := assertion(s, w, id, akValid)
 		setAssertion(f, a, true)
